@@ -706,7 +706,6 @@ class Tr:
     # ---------------------------------------------------------------- trait defaults (modelled by hand in C18/Model.v)
     EXPECTED_DEFAULTS = {
         "memoize_register": "default_memoize_register(Self::REGISTERS, reg)",
-        "format_register": 'format!( "0x{:01$x}", self.get_register_always(reg), mem::size_of::<Self::Register>() * 2 )',
         "registers": "self.valid_registers(&MinidumpContextValidity::All)",
         "valid_registers": "let regs = match valid { MinidumpContextValidity::All => CpuRegistersInner::Slice(Self::REGISTERS.iter()), "
                            "MinidumpContextValidity::Some(valid) => CpuRegistersInner::Set(valid.iter()), }; CpuRegisters { regs, context: self, }",
@@ -731,6 +730,15 @@ class Tr:
         wd = "context.rs trait CpuContext register_is_valid"
         self.default_valid = (self.accessor(mm.group(1), None, wd + " (Some branch)", recv="self", want="bool"),
                               self.accessor(mm.group(2), None, wd + " (All branch)", recv="self", want="bool"))
+        # format_register: the format string and the width argument are translated (prefix, padding, digits per byte)
+        got = fns.get("format_register")
+        mm = got and re.fullmatch(r'format!\( "([^"{}\\\\]*)\{:(0?)1\$x\}", self\.get_register_always\(reg\), '
+                                  r'mem::size_of::<Self::Register>\(\)(?: \* (\d+))? \)', norm(got[1]))
+        if not mm:
+            die("context.rs: default body of CpuContext::format_register has an unexpected shape (C18/Model.v format_value "
+                "models `format!(\"<prefix>{:[0]1$x}\", self.get_register_always(reg), mem::size_of::<Self::Register>() [* K])`): %r"
+                % (norm(got[1]) if got else None))
+        self.fmt = (mm.group(1), mm.group(2) == "0", int(mm.group(3) or 1))
         got = fns.get("get_register")
         mm = got and re.fullmatch(r"if (.+) \{ Some\(self\.get_register_always\(reg\)\) \} else \{ None \}", norm(got[1]))
         if not mm:
@@ -887,6 +895,7 @@ class Tr:
             t["ip_acc"] = disp[v]["ip_acc"]
             t["memo_cmp"] = self.memo_cmp
             t["get_cond"] = self.get_register_cond
+            t["fmt"] = self.fmt
             if not t["custom_valid"]:
                 t["valid_default"], t["valid_all"] = self.default_valid
             for key in ("md_get", "md_valid", "md_filter"):
@@ -1031,6 +1040,9 @@ def emit(tables):
         o.append("  ct_get_cond := %s;" % coq_bexp(t["get_cond"]))
         o.append("  ct_valid_all := %s;" % coq_bexp(t["valid_all"]))
         o.append("  ct_valid_default := %s;" % coq_bexp(t["valid_default"]))
+        o.append("  (* format_register: prefix %r, %s-padded to size_of::<Register>() * %d lower-case hex digits *)"
+                 % (t["fmt"][0], "zero" if t["fmt"][1] else "space", t["fmt"][2]))
+        o.append("  ct_fmt_prefix := %s; ct_fmt_zero := %s; ct_fmt_mul := %d;" % (coq_str(t["fmt"][0]), "true" if t["fmt"][1] else "false", t["fmt"][2]))
         o.append("  ct_sp_name := %s;" % coq_str(t["sp_name"]))
         o.append("  ct_ip_name := %s;" % coq_str(t["ip_name"]))
         o.append("  (* get_stack_pointer: %s *)" % show_aexp(t["sp_acc"]))
